@@ -83,7 +83,8 @@ TMPL_DBL_JACOB_IMP(ep, fp);
 #if EP_ADD == BASIC || !defined(STRIP)
 
 void ep_dbl_basic(ep_t r, const ep_t p) {
-	if (ep_is_infty(p)) {
+	if (ep_is_infty(p) || fp_is_zero(p->y)) {
+		/* Doubling a point of order two gives the identity. */
 		ep_set_infty(r);
 		return;
 	}
@@ -91,7 +92,8 @@ void ep_dbl_basic(ep_t r, const ep_t p) {
 }
 
 void ep_dbl_slp_basic(ep_t r, fp_t s, const ep_t p) {
-	if (ep_is_infty(p)) {
+	if (ep_is_infty(p) || fp_is_zero(p->y)) {
+		/* Doubling a point of order two gives the identity. */
 		ep_set_infty(r);
 		return;
 	}
